@@ -97,13 +97,43 @@ def all_records(reg):
             for bogus in ("bogus_step", "", "Compute_tip_position"):
                 lst = base[:pos] + [bogus] + base[pos:]
                 recs.append(observe(lst, "unknown", factory))
+    # lists that name a step twice
+    reps = [["compute_tip_position", "correct_force_slope",
+             "correct_tip_offset", "correct_force_slope"],
+            ["compute_tip_position", "correct_tip_offset",
+             "compute_tip_position"],
+            ["correct_tip_offset", "compute_tip_position",
+             "correct_tip_offset"],
+            ["compute_tip_position", "compute_tip_position",
+             "correct_tip_offset"]]
+    for base in (["compute_tip_position", "correct_tip_offset",
+                  "correct_force_slope"],
+                 ["compute_tip_position", "correct_force_slope",
+                  "correct_tip_offset"],
+                 ["compute_tip_position", "correct_tip_offset",
+                  "correct_split_approach_retract", "smooth_height"]):
+        for i in range(len(base)):
+            for pos in range(len(base) + 1):
+                reps.append(base[:pos] + [base[i]] + base[pos:])
+    seen = set()
+    for lst in reps:
+        if tuple(lst) not in seen:
+            seen.add(tuple(lst))
+            recs.append(observe(lst, "repeated", factory))
     # the list of available steps, as the library hands it out AFTER all
     # the accepted and refused requests above (and once more from scratch)
-    av = list(preproc.available())
-    recs.append(observe(av, "available", factory))
+    def safe_available():
+        # (a library that cannot even list its steps any more has lost the
+        # property: an empty list fails the clauses of the available list)
+        try:
+            return list(preproc.available())
+        except BaseException as exc:
+            if isinstance(exc, (KeyboardInterrupt, SystemExit)):
+                raise
+            return []
+    recs.append(observe(safe_available(), "available", factory))
     preproc.available.cache_clear()
-    av = list(preproc.available())
-    recs.append(observe(av, "available", factory))
+    recs.append(observe(safe_available(), "available", factory))
     return recs
 
 
@@ -200,9 +230,15 @@ def run(ctx):
 
     # 3. binding self-test: a corrupted observation must be rejected
     bad = copy.deepcopy(recs[700:720])
-    victim = next(r for r in bad if r["sort_ok"] and len(r["sort_out"]) >= 2)
-    victim["sort_out"] = victim["sort_out"][::-1] \
-        if victim["sort_out"][::-1] != victim["sort_out"] else []
+    victim = next((r for r in bad if r["sort_ok"]
+                   and len(r["sort_out"]) >= 2), None)
+    if victim is None:
+        # (the tree under test sorts nothing here; corrupt another field)
+        victim = bad[0]
+        victim["check"] = not victim["check"]
+    else:
+        victim["sort_out"] = victim["sort_out"][::-1] \
+            if victim["sort_out"][::-1] != victim["sort_out"] else []
     full = [r for r in recs if r["kind"] == "selection"
             and r is not None][:0]
     _, failed2, _ = validate(ctx, bad, reg_path, "selftest")
